@@ -608,6 +608,15 @@ pub fn run(tier: &Tier) -> i32 {
             "start:\nmov ax,, 5\n".into(),
             "macro e(a) -> <-\nstart:\ne(ax)\ne(bx)\n".into(),
             "macro c129(a) -> inc a <-\nmacro c130(a) -> c129(a) <-\nstart:\nc130(ax)\nc129(bx)\n".into(),
+            // every way an expansion can fail (text ends inside an instruction, unexpected token, invalid
+            // character, in a nested expansion, wrong argument count), each followed - in other histories - by a
+            // valid program that uses the same macro names and a forward jump
+            "macro half(a) -> mov a, <-\nstart:\nhalf(ax)\n".into(),
+            "macro half(a) -> inc a <-\nmacro whole(a) -> half(a) <-\nstart:\nhalf(ax)\nwhole(bx)\njmp z\nz:\n".into(),
+            "macro half(a) -> mov a,, 5 <-\nmacro whole(a) -> half(a) <-\nstart:\nwhole(ax)\n".into(),
+            "macro half(a) -> mov a, [ <-\nmacro whole(a) -> inc a half(a) <-\nstart:\njmp z\nwhole(ax)\nz:\n".into(),
+            "macro half(a) -> inc a <-\nstart:\nhalf(ax, bx)\n".into(),
+            "macro half(a) -> mov a, @ <-\nstart:\nhalf(ax)\n".into(),
         ];
         let fresh: Vec<String> = alpha
             .iter()
